@@ -84,8 +84,23 @@ Ltac unify_bin f :=
         end end
   end.
 
+(* non-lockstep case analysis: pick any `if` on either side, go down to the atomic test under
+   negb / && / || (so `if a != b {X} else {Y}` and `if a == b {Y} else {X}` split on the same
+   test), destruct it -- it is replaced everywhere, on both sides -- and simplify the boolean
+   connectives; repeated until no `if` is left (<= 2^#tests leaves) *)
+Ltac atom_cond c :=
+  lazymatch c with
+  | negb ?a => atom_cond a
+  | andb ?a _ => atom_cond a
+  | orb ?a _ => atom_cond a
+  | (if ?a then _ else _) => atom_cond a
+  | _ => c
+  end.
 Ltac split_ifs :=
-  repeat match goal with |- context [if ?c then _ else _] => destruct c eqn:? end.
+  repeat match goal with
+         | |- context [if ?c then _ else _] =>
+             let a := atom_cond c in destruct a eqn:?; cbn [negb andb orb]
+         end.
 
 Ltac gen_norm :=
   cbv beta iota zeta;
